@@ -50,6 +50,21 @@ func scenarioC06(rc *RunCtx) {
 		// happens, it happens before any random test case. Only when none of them still fails is R2 judged.
 	}
 	staleBefore := len(FailFilesIn(Snapshot(dir)))
+	if t.Chance("c06.run1_flag", 15) {
+		// run 1 itself is given -rapid.failfile=<a file that is of no use>: garbage, empty, or a well-formed file
+		// whose test case is of no use now. The failure found afterwards by random search is persisted and named as usual.
+		content := []byte("# not a fail file\n\x00\xff garbage")
+		switch t.Pick("c06.run1_flag_kind", 3) {
+		case 0:
+			content = nil
+		case 1:
+			// a well-formed file of a test case that is invalid now (more data than anything can consume is fine, less is not)
+			content = []byte("# stale\n" + rapidVersionLine() + "\n")
+		}
+		_ = os.WriteFile(filepath.Join(dir, "explicit-run1.fail"), content, 0o644)
+		fl.FailFile = "explicit-run1.fail"
+		rc.Inc("probe.run1_with_explicit_useless_failfile")
+	}
 
 	// environment: the temporary directory of the process may live on another file system than the package directory
 	if t.Chance("c06.tmpdir_other_fs", 12) {
@@ -96,7 +111,7 @@ func scenarioC06(rc *RunCtx) {
 	nf := newFailFiles(r1)
 	if len(nf) == 0 && r1.FailFileNamed != "" {
 		for _, f := range FailFilesIn(r1.SnapBefore) {
-			if filepath.Clean(f) == filepath.Clean(r1.FailFileNamed) {
+			if filepath.Clean(f) == filepath.Clean(r1.FailFileNamed) && (fl.FailFile == "" || filepath.Clean(f) != filepath.Clean(fl.FailFile)) {
 				// same test name, same simulated second, same pid as an older file: the save replaced it (not a new name)
 				rc.Inc("scope.file_name_collision")
 				return
@@ -138,6 +153,7 @@ func scenarioC06(rc *RunCtx) {
 		pol2 = ClockPolicy{Kind: ClkCut, K: 0, Delta: gap}
 	}
 	f2 := fl
+	f2.FailFile = ""
 	f2.Seed = fl.Seed + 12345 // whatever the second run would generate randomly must not matter
 	variantFlag := t.Chance("c06.flag_variant", 30)
 	dir2 := dir
